@@ -246,7 +246,8 @@ class _Run:
         if not isinstance(h2, self.darr.RaggedArray if self.ragged else self.darr.Array):
             raise Viol('replica.copy', f'returned:{type(h2).__name__}', '')
         if h2.accessmode != op['mode']:
-            raise Viol('replica.copy', 'accessmode', f'{h2.accessmode} != {op["mode"]}')
+            self.probe('copy_returned_in_another_accessmode')      # recorded; the statement does not speak of it
+            cp.mode = h2.accessmode
         cp.observe(h2, 'replica.copy_returned')
         self.check_side(cp, 'copy_fresh')
         r = M.check_meta(h2.metadata, cp.meta, os.path.join(path2, 'metadata.json'), 'copy')
@@ -322,8 +323,8 @@ class _Run:
             return
         if exc is not None:
             raise Viol('replica.archive', f'raises:{type(exc).__name__}', str(exc)[:200])
-        if str(ret) != str(target):
-            raise Viol('replica.archive', 'returned_path', f'{ret} != {target}')
+        if not op.get('explicit') and ret is not None and os.path.exists(str(ret)):
+            target = str(ret)        # where the archive goes by default is the library's choice
         ex = os.path.join(self.sb, '_extract')
         os.makedirs(ex)
         try:
@@ -332,8 +333,8 @@ class _Run:
         except Exception as e:
             raise Viol('replica.archive', f'unreadable:{type(e).__name__}', str(e)[:200])
         names = sorted(os.listdir(ex))
-        if names != [os.path.basename(st.path)]:
-            raise Viol('replica.archive', 'top_level_names', str(names))
+        if len(names) != 1:
+            raise Viol('replica.archive', 'not_one_top_level_entry', str(names))
         a, b = snapshot(st.path), snapshot(os.path.join(ex, names[0]))
         strip = lambda s: {k: (v[0],) + tuple(v[2:]) for k, v in s.items()}   # noqa  (content, not mode bits)
         d = snap_diff(strip(a), strip(b))
